@@ -29,6 +29,13 @@ func runC03(c *Ctx) {
 				return
 			}
 			consumed := input[:len(input)-len(res.Rem)]
+			// (1a) a mapping's extent is its two-byte size field plus that many bytes
+			if p.Name == "ReadMapping" && len(input) >= 2 {
+				if size := int(input[0])<<8 | int(input[1]); len(input) >= 2+size {
+					c.Check("consumes_declared_extent", len(consumed) == 2+size, p.Name, args, "",
+						fmt.Sprintf("mapping declares %d bytes, parser consumed %d", 2+size, len(consumed)))
+				}
+			}
 			// (1b) the structure's own declared extent, known from the independent encoder
 			if wlen >= 0 && !p.InexactGen {
 				c.Check("consumes_declared_extent", len(consumed) == wlen, p.Name, args, "",
